@@ -54,6 +54,11 @@ claimed = {
          "Structures: generator lookup lists (deviation bound 2/3) with one of 15 hostile modifications (out-of-range lookup, sequence, class, coverage, ligature-set and mark-filtering-set indices, empty replacement lists, self reference, 12-deep nesting, rules with 63..200 actions), passed through the library's own encoder and reader so that only shapes the reader can deliver are applied, on all sequences of length <= 4 over {A,B,M,0,0xFFFF} and on 200-glyph inputs: no panic, returns (20 s watchdog), every input character exactly once in the output. Bytes: every 16-bit field of encoded tables overwritten with 7 boundary values; whatever gtab.Read accepts is applied. Histories: all histories of <= 3 Apply calls over 6 inputs on one Context (and of <= 3 Layout calls over 7 strings on one Layouter): each probe equals the result on a fresh object.",
          "Termination is observed with a generous wall-clock watchdog (20 s vs. microseconds); map-order independence only through Go's randomised iteration; the output-length clause is not checked beyond termination and text conservation (no sound closed-form bound for nested rules).",
          "DESIGN.md 4/C07"),
+ "C05": ("model_checking",
+         "grammar-bounded exhaustive enumeration of Type 2 programs, assembled into complete CFF tables by an independent assembler and compared with an independent specification interpreter",
+         "Every path operator in every legal operand-count form and its illegal neighbours x 3 operand rotations x every preceding path operator x with/without width; flex1 direction cases; every arithmetic/logic/stack operator on all tuples from a 6-value alphabet, ifelse on all 4-tuples, put/get, roll/index for all (n,j) <= 4; stems x masks x implicit vstems x hm variants x width for 0..9 stems per direction; the five number encodings at their boundaries; subroutine tables of sizes 0..33900 (40000 thorough) called at first/last/one-past index, nesting 1..12; CID-keyed fonts with all FDSelect functions on 4 glyphs over 2..3 font dicts with different widths and local subroutines; single faults (truncation at every byte, every byte deleted, every operator with 0..3 operands before/after moveto, 47..50 operands). cff.Read's glyph (path, stems, masks, width) must equal reft2's to 2^-16; programs reft2 rejects for one of the listed fault classes must be rejected.",
+         "reft2/refcff (independent, cross-checked against x/image on two real fonts) are the trusted base; ill-formed programs outside the property's list (undefined arithmetic, odd operand counts, misplaced hints) are not compared; two known findings (delta clamp at +-32000, path operators with too few operands skipped).",
+         "DESIGN.md 4/C05"),
 }
 checks = []
 na = []
